@@ -1672,7 +1672,6 @@ func ruleLazy(c *Ctx) {
 	thunkLit("vm", "switchThreading", "vm.VM.call0", false)
 }
 
-
 // mapLiteralOrder (clause of POPORDER-1 for the two back ends without a stack): a map literal evaluates k1, v1, k2, v2, ..
 // The VM gets that order from the compiler's emission order plus the reversed pops checked above; the closure compiler and
 // the interpreter get it from their own loop. In the MapExpr arm — in the closure it returns, for the closure compiler — all
